@@ -97,7 +97,7 @@ CLAIMS = {
  "C23": ("capture-sim", "exploration", "7.23",
    "deterministic simulation: the local packet buffer exercised in situ by the C21 scenario (adds while paused, drain-all, reset) with the size limit as a randomised knob; field preservation via class-wise conservation, refusal legitimacy via per-cycle byte accounting at the source seam",
    "Pause-window length (schedule) and size limit (knob) determine the add/grow/refuse/drain sequence. Drained items must reproduce key, IP version, direction, TCP flags / ICMP type, parse status and size (observable through orientation, direction counters and sizes in the flow log: class-wise conservation), and every reported overflow needs a lock cycle whose packets occupy at least the limit (an insert may be refused only when the buffer has reached its size limit).",
-   "Only the production call pattern is explored; arbitrary API sequences on a bare buffer are input-space testing and not claimed."),
+   "Two runs in three explore the production call pattern in situ; one run in three drives the bare buffer against a reference FIFO (1-4 cycles of inserts with every value of key, IP version, packet type, aux byte, parse status and a 32-bit size, complete drain, reset, limits around the growth steps): items must come out in order with every field intact, nothing more than what was accepted, and no refusal while less than half of the limit is in use."),
  "C27": ("capture-sim", "exploration", "7.27",
    "deterministic simulation: histories of configuration updates over a small interface universe (guarded host-link hook) with traffic and clock steps (0 s, 0.4 s, 2 s, 299 s, 301 s) in between; selection model compared with running captures and their settings (guarded accessor); conservation per interface at the end",
    "2-6 updates (explicit names, explicit disables, overlapping regular expressions with different settings, auto-detection with excludes, changes of every CaptureConfig field) with packets on every running interface and a clock step before each update, then shutdown; in one update of four the capture source of one interface cannot be opened (injected fault), after which the same configuration is applied again with the fault cleared and the interface must come up. After each update: running captures = selected interfaces, settings = those the configuration assigns (ambiguous selections are re-applied 16 times and must not change); at the end everything read from any interface must be in the database; a logged 'failed to perform writeout' is a violation.",
